@@ -11,6 +11,9 @@ macro_rules! s3_error {
     ($code:ident) => { crate::error::S3Error::new() };
     ($code:ident, $($arg:tt)+) => { crate::error::S3Error::new() };
 }
+macro_rules! invalid_request {
+    ($($arg:tt)+) => { crate::error::S3Error::new() };
+}
 verus! {
 
 // @canary-decls
@@ -25,8 +28,30 @@ use crate::error::*;
 
 #[derive(PartialEq, Eq, Structural, Clone, Copy)]
 pub enum Method { GET, HEAD, POST, PUT, DELETE, OTHER }
+#[allow(non_camel_case_types)]
+#[derive(PartialEq, Eq, Structural, Clone, Copy)]
+pub enum Version { HTTP_09, HTTP_10, HTTP_11, HTTP_2, HTTP_3 }
+pub mod http { pub use crate::Version; }
+pub struct Authority { pub o: u64 }
+impl Authority {
+    /// `host[:port]` exactly as the request target carries it
+    pub uninterp spec fn text(&self) -> Seq<char>;
+    #[verifier::external_body]
+    pub fn as_str(&self) -> (r: &str) ensures r@ == self.text() { unimplemented!() }
+}
 pub struct Uri { pub o: u64 }
 impl Uri {
+    pub uninterp spec fn authority_spec(&self) -> Option<Authority>;
+    /// the host WITHOUT the port (http::Uri::host) — not what a client signs as `host` when it names a port
+    pub uninterp spec fn host_text(&self) -> Option<Seq<char>>;
+    #[verifier::external_body]
+    pub fn authority(&self) -> (r: Option<&Authority>)
+        ensures (r matches Some(a) ==> self.authority_spec() == Some(*a)), (r is None ==> self.authority_spec() is None)
+    { unimplemented!() }
+    #[verifier::external_body]
+    pub fn host(&self) -> (r: Option<&str>)
+        ensures (r matches Some(h) ==> self.host_text() == Some(h@)), (r is None ==> self.host_text() is None)
+    { unimplemented!() }
     /// the path of the request target exactly as it was sent (not percent-decoded)
     pub uninterp spec fn path_text(&self) -> Seq<char>;
     #[verifier::external_body]
@@ -34,8 +59,40 @@ impl Uri {
 }
 pub struct OrderedQs { pub o: u64 }
 pub struct OrderedHeaders<'a> { pub o: u64, pub p: core::marker::PhantomData<&'a u8> }
+impl<'a> OrderedHeaders<'a> {
+    /// http::OrderedHeaders::find_multiple_with_on_missing (VU-ordhdr decides it); here only the closure handed to it matters
+    #[verifier::external_body]
+    pub fn find_multiple_with_on_missing<F: Fn(&'a str) -> Option<&'a str>>(&self, names: &'a Vec<&'a str>, on_missing: F) -> (r: OrderedHeaders<'a>)
+    { unimplemented!() }
+}
+/// what stands in for a signed `host` header the request does not carry: over HTTP/2 the `:authority` of the request target —
+/// host AND port, as the client signed it — and nothing for any other name or protocol version
+pub open spec fn h2_host_fallback(name: Seq<char>, version: Version, uri: Uri) -> Option<Seq<char>> {
+    if name == "host"@ && version == Version::HTTP_2 { match uri.authority_spec() { Some(a) => Some(a.text()), None => None } } else { None }
+}
+pub struct SignedNames<'a> { pub signed_headers: Vec<&'a str> }
 pub struct SecretKey { pub o: u64 }
 pub struct AmzDate { pub o: u64 }
+/// `YYYYMMDD` of an x-amz-date value: the date the credential scope is built from (AmzDate::fmt_date — format!, trusted)
+pub uninterp spec fn spec_date_text(d: AmzDate) -> Seq<char>;
+pub struct ArrayString8 { pub o: u64 }
+impl ArrayString8 {
+    pub uninterp spec fn view(&self) -> Seq<char>;
+    #[verifier::external_body]
+    pub fn as_str(&self) -> (r: &str) ensures r@ == self@ { unimplemented!() }
+}
+impl AmzDate {
+    #[verifier::external_body]
+    pub fn fmt_date(&self) -> (r: ArrayString8) ensures r@ == spec_date_text(*self) { unimplemented!() }
+}
+/// the x-amz-date header of the request, parsed (signature.rs extract_amz_date over VU-sigleaf's parser)
+pub uninterp spec fn spec_header_date(hs: OrderedHeaders<'_>) -> Option<AmzDate>;
+#[verifier::external_body]
+pub fn extract_amz_date(hs: &OrderedHeaders<'_>) -> (r: S3Result<Option<AmzDate>>)
+    ensures r matches Ok(o) ==> o == spec_header_date(*hs)
+{ unimplemented!() }
+pub struct CredentialV4<'a> { pub date: &'a str }
+pub struct AuthorizationV4<'a> { pub credential: CredentialV4<'a> }
 pub struct Body { pub o: u64 }
 pub struct Bytes { pub v: Vec<u8> }
 impl Bytes {
@@ -118,6 +175,7 @@ impl AsRef<[(String, String)]> for OrderedQsPairs {
 pub struct SignatureContext<'a> {
     pub req_method: &'a Method,
     pub req_uri: &'a Uri,
+    pub req_version: Version,
     pub req_body: &'a mut Body,
     pub qs: Option<&'a OrderedQs>,
     pub hs: OrderedHeaders<'a>,
@@ -195,6 +253,28 @@ impl<'a> SignatureContext<'a> {
     {
 //@@ extract v2_presigned_sig_range file=crates/s3s/src/ops/signature.rs item="impl SignatureContext<'_>/fn v2_check_presigned_url" from="let string_to_sign = sig_v2::create_string_to_sign(" until="let expected_signature = presigned_url.signature;"
         signature
+    }
+
+    pub fn v4_header_signed_headers(&self, authorization: &'a SignedNames<'a>) -> (ret: OrderedHeaders<'a>)
+    {
+//@@ extract v4_header_hdrs_range file=crates/s3s/src/ops/signature.rs item="impl SignatureContext<'_>/fn v4_check_header_auth" from="let headers = self.hs.find_multiple_with_on_missing(&authorization.signed_headers," until="let canonical_request = if is_stream {" rewrites="closure:1:Option<&'a str>,subst:::http::Version=>crate::http::Version"
+        headers
+    }
+    pub fn v4_presigned_signed_headers(&self, presigned_url: &'a SignedNames<'a>) -> (ret: OrderedHeaders<'a>)
+    {
+//@@ extract v4_presigned_hdrs_range file=crates/s3s/src/ops/signature.rs item="impl SignatureContext<'_>/fn v4_check_presigned_url" from="let headers = self.hs.find_multiple_with_on_missing(&presigned_url.signed_headers," until="let method = &self.req_method;" rewrites="closure:1:Option<&'a str>,subst:::http::Version=>crate::http::Version"
+        headers
+    }
+
+    pub fn v4_header_scope_date(&self, authorization: &AuthorizationV4<'_>) -> (ret: S3Result<AmzDate>)
+        ensures
+            //# C05:callsite.v4_header.the_date_of_the_presented_credential_scope_is_the_date_that_is_signed
+            ret matches Ok(d) ==> spec_header_date(self.hs) == Some(d) && authorization.credential.date@ == spec_date_text(d),
+            //#-
+//@@ canary v4_header_scope_date
+    {
+//@@ extract v4_header_scope_range file=crates/s3s/src/ops/signature.rs item="impl SignatureContext<'_>/fn v4_check_header_auth" from="let amz_date = extract_amz_date(&self.hs)?" until="let is_stream =" rewrites=closure:1:S3Error
+        Ok(amz_date)
     }
 
     pub fn v4_header_path_and_method(&self) -> (ret: (&&'a Method, &String))
